@@ -817,6 +817,12 @@ func (s *connectionScope) SetPeer(p peer.ID) error {
 			system = s.rcmgr.system
 			transient = s.rcmgr.transient
 		}
+	} else if len(s.edges) == 0 {
+		// An earlier transfer to the standard scopes was refused and left this
+		// connection charged to no scope: charge the standard scopes now.
+		if err := s.transferAllowedToStandard(); err != nil {
+			return err
+		}
 	}
 
 	s.peer = s.rcmgr.getPeerScope(p)
